@@ -12,6 +12,9 @@ def runCase (hdr : List String) (ops : List String) : List String :=
   match hdr with
   | "ring" :: rest => runRingCase rest ops
   | "ringL" :: rest => runLargeCase rest ops
+  | "ringZ" :: rest => runLargeCase rest ops     -- Ring[struct{}]: capacities up to MaxInt cost no memory
+  | "ringA" :: rest => runLargeCase rest ops     -- Ring[[0]int]
+  | "ringM" :: rest => runMultiCase rest ops
   | "ringC" :: rest => runRingCopyCase rest ops
   | "syncC" :: rest => runSyncCopyCase rest ops
   | "syncS" :: rest => runSyncSpecCase rest ops
